@@ -252,7 +252,7 @@ class Recorder:
                              ncells=len(cs["cells"]), ids=[list(c.identifier) for c in cs["cells"]],
                              per_side=list(st.cells._cells_per_side), layers=st.cells._neighbor_layers,
                              relevant=[self.uid(n.value.identifier) for n in self.walk(nodes)
-                                       if len(n.value.identifier) == st.cell_level and st._is_relevant_unit(n.value)]))
+                                       if len(n.value.identifier) == st.cell_level and relevant_by_charge(st, n.value)]))
         for ti, t in enumerate(taggers):
             st = getattr(t, "_internal_state", None)
             for i, cs in enumerate(self.cellsys, start=1):
@@ -294,7 +294,7 @@ class Recorder:
             ambiguous = []
             for n in self.walk(sh.extract_global_state()):
                 u = n.value
-                if len(u.identifier) != st.cell_level or not st._is_relevant_unit(u):
+                if len(u.identifier) != st.cell_level or not relevant_by_charge(st, u):
                     continue
                 cell, amb = self.exact_cell(cs, u, now)
                 truth.append([self.uid(u.identifier), cell])
@@ -382,6 +382,23 @@ def factor_map_of(tagger):
     return dict(kind="map", local=int(bool(fm._local)), lines=lines)
 
 
+def relevant_by_charge(occupancy, unit):
+    """Relevance of a unit for a cell-occupancy system as *documented* (filter charge unequal zero), decided from the name
+    of the filter charge (read from the closure of the object's own predicate) and the unit's charge -- not by calling
+    the object's predicate, which is part of what is being checked."""
+    pred = getattr(occupancy, "_is_relevant_unit", None)
+    name = None
+    for cell in (getattr(pred, "__closure__", None) or ()):
+        try:
+            if isinstance(cell.cell_contents, str):
+                name = cell.cell_contents
+        except ValueError:
+            pass
+    if name is None:
+        return True
+    return unit.charge[name] != 0
+
+
 def is_thinning(handler):
     for cls in type(handler).__mro__:
         mod = sys.modules.get(cls.__module__)
@@ -443,6 +460,39 @@ def install(recorder):
                 REC.on_mediator_built(self)
         return __init__
     wrap(MediatorAbstractClass, "__init__", mk_init)
+
+    # ---- multi-process mediator: stage map and event sets of the mediator process (C20, TraceMedStage.tla)
+    try:
+        from jellyfysh.mediator.multi_process_mediator.multi_process_mediator import MultiProcessMediator
+
+        class StageDict(dict):
+            def __init__(self, med, *a):
+                super().__init__(*a)
+                self.med = med
+
+            def __setitem__(self, pipe, value):
+                super().__setitem__(pipe, value)
+                h = self.med._event_handlers.get(pipe)
+                REC.emit("stage", hid=REC.hid(h) if h is not None else 0, to=value.name)
+
+        def mk_start(orig):
+            def _start_processes(self):
+                orig(self)
+                self._event_handlers_state = StageDict(self, self._event_handlers_state)
+                for which, events in (("start", self._start_events), ("continue", self._send_out_state_events)):
+                    for pipe, ev in events.items():
+                        h = self._event_handlers[pipe]
+
+                        def logged_set(_set=ev.set, _h=h, _w=which):
+                            _set()
+                            REC.emit("evset", hid=REC.hid(_h), which=_w)
+                        ev.set = logged_set
+                REC.emit("mpinit", cores=self._number_cores,
+                         outargs=[REC.hid(h) for h in self._event_handlers_list if h.number_send_out_state_arguments])
+            return _start_processes
+        wrap(MultiProcessMediator, "_start_processes", mk_start)
+    except Exception:
+        pass
 
     # ---- activator
     def mk_run(orig):
